@@ -4,7 +4,10 @@ import RotondaModel.Proofs.Codec
 
 `Model/Codec.lean` is the independent reference decoder (`decode`, `events`, `run`) and at
 the same time the transliteration of `UpdateMessage::from_octets` +
-`explode_announcements` / `explode_withdrawals` + the callers' `reach ++ unreach`.
+`explode_announcements` / `explode_withdrawals` (`run`: the two composed directly) and of
+the three ingress call sites (`explodeUpdate`, `runCaller`, `runBmpDumping`, `runMrt`), which
+since commit 2186599 go through `explode_update` (RFC 4271 4.3: the withdrawal of an NLRI
+that the same UPDATE announces is dropped; variant site `overlapKept`).
 The engine `c04` ties it to the real code on the same PDU bytes.
 
 All statements quantify over every UPDATE (any number of prefixes and attributes, any
@@ -144,6 +147,80 @@ example : run asWritten true (encode sample) =
           ann true sample.attrs .v4u ⟨24, [192, 0, 2]⟩,
           wdr true .v4u ⟨8, [10]⟩] := by decide
 
+/-! ## The ingress call sites (BGP session `process_update`, BMP Updating phase) -/
+
+/-- C04 at a call site, at full strength for a given variant of the code: for every
+    RFC-well-formed UPDATE the payloads handed to the gate are exactly `specUpdate`: one
+    announcement per reachable prefix, one withdrawal per unreachable prefix *that the same
+    UPDATE does not also announce* (RFC 4271 4.3). -/
+def C04_caller_full (v : Variant) : Prop :=
+  ∀ (as4 : Bool) (u : Upd) (r w : List (Fam × Pfx)) (extra : Bytes),
+    u.wfRfc → ReachIs u.attrs r → UnreachIs u.attrs w →
+    runCaller v as4 (encode u ++ extra) = some (specUpdate as4 u r w)
+
+/-- With pad bits masked and `explode_update` at the call sites, C04 holds in full there. -/
+theorem C04_caller_full_repaired (v : Variant) (hp : v.maskPad = true) (ho : v.overlapKept = false) :
+    C04_caller_full v := by
+  intro as4 u r w extra hwf hr hw
+  exact runCaller_encode v as4 u r w extra hwf hr hw (Or.inl hp) (Or.inl ho)
+
+/-- `explode_update` at the call sites, pad bits as written (the tree after commit 2186599):
+    full on every UPDATE whose prefixes have zero pad bits, overlapping or not. -/
+theorem C04_caller_overlap_repaired (v : Variant) (ho : v.overlapKept = false)
+    (as4 : Bool) (u : Upd) (r w : List (Fam × Pfx)) (extra : Bytes)
+    (hwf : u.wfRfc) (hr : ReachIs u.attrs r) (hw : UnreachIs u.attrs w)
+    (hclean : u.clean ∧ allClean r ∧ allClean w) :
+    runCaller v as4 (encode u ++ extra) = some (specUpdate as4 u r w) :=
+  runCaller_encode v as4 u r w extra hwf hr hw (Or.inr hclean) (Or.inl ho)
+
+/-- The code as written (separate `explode_announcements` / `explode_withdrawals` at the call
+    sites): right on every UPDATE with zero pad bits in which no NLRI is both withdrawn and
+    announced (guard = `noOverlap`, decidable). -/
+theorem C04_caller_partial (as4 : Bool) (u : Upd) (r w : List (Fam × Pfx)) (extra : Bytes)
+    (hwf : u.wfRfc) (hr : ReachIs u.attrs r) (hw : UnreachIs u.attrs w)
+    (hclean : u.clean ∧ allClean r ∧ allClean w) (hno : noOverlap as4 u r w) :
+    runCaller asWritten as4 (encode u ++ extra) = some (specUpdate as4 u r w) :=
+  runCaller_encode asWritten as4 u r w extra hwf hr hw (Or.inr hclean) (Or.inr hno)
+
+/-- ... and what it emits otherwise: both, the withdrawal after the announcement. -/
+theorem C04_caller_as_written_keeps_withdrawal (v : Variant) (ho : v.overlapKept = true)
+    (as4 : Bool) (u : Upd) (r w : List (Fam × Pfx)) (extra : Bytes)
+    (hwf : u.wfRfc) (hr : ReachIs u.attrs r) (hw : UnreachIs u.attrs w)
+    (hc : v.maskPad = true ∨ (u.clean ∧ allClean r ∧ allClean w)) :
+    runCaller v as4 (encode u ++ extra) = some (specEvents as4 u r w) := by
+  rw [runCaller_encode_gen v as4 u r w extra hwf hr hw hc]
+  simp [specCaller, ho]
+
+/-- ORIGIN, AS_PATH, NEXT_HOP; 203.0.113.0/24 in WITHDRAWN ROUTES and in NLRI. -/
+def witnessOverlap : Upd :=
+  ⟨[⟨24, [203, 0, 113]⟩], [⟨0x40, 1, [0]⟩, ⟨0x40, 2, []⟩, ⟨0x40, 3, [10, 0, 0, 1]⟩],
+   [⟨24, [203, 0, 113]⟩]⟩
+
+theorem witnessOverlap_wf : witnessOverlap.wfRfc :=
+  ⟨by decide, by decide, by decide, by decide, by decide, by decide, by decide⟩
+
+/-- Separate `explode_*` calls at a call site violate C04 there (the other sites repaired in
+    this variant): the witness must yield the announcement of 203.0.113.0/24 and nothing
+    else; it yields the announcement followed by the withdrawal. The engine replays these
+    bytes through the real `Processor::process_update` first. -/
+theorem C04_caller_counterexample : ¬ C04_caller_full ⟨true, false, false, true⟩ := by
+  intro h
+  have h' := h true witnessOverlap [] [] [] witnessOverlap_wf (.absent (by decide)) (.absent (by decide))
+  revert h'
+  decide
+
+example : ¬ noOverlap true witnessOverlap [] [] ∧ witnessOverlap.clean := by decide
+
+example : runCaller repaired true (encode witnessOverlap) =
+      some [ann true witnessOverlap.attrs .v4u ⟨24, [203, 0, 113]⟩] ∧
+    runCaller asWritten true (encode witnessOverlap) =
+      some [ann true witnessOverlap.attrs .v4u ⟨24, [203, 0, 113]⟩, wdr true .v4u ⟨24, [203, 0, 113]⟩] ∧
+    run repaired true (encode witnessOverlap) = run asWritten true (encode witnessOverlap) := by
+  decide
+
+/-- Non-vacuity of `C04_caller_partial` / `C04_caller_overlap_repaired`: `sample` has no overlap. -/
+example : noOverlap true sample [(.v6u, ⟨32, [0x20, 1, 0x0d, 0xb8]⟩)] [] := by decide
+
 /-! ## The BMP Route Monitoring path in the Dumping phase -/
 
 /-- C04 for an UPDATE arriving in a BMP Route Monitoring message during the Dumping phase
@@ -151,31 +228,32 @@ example : run asWritten true (encode sample) =
 def C04_bmp_full (v : Variant) : Prop :=
   ∀ (as4 : Bool) (u : Upd) (r w : List (Fam × Pfx)) (extra : Bytes),
     u.wfRfc → ReachIs u.attrs r → UnreachIs u.attrs w →
-    runBmpDumping v as4 (encode u ++ extra) = some (specEvents as4 u r w)
+    runBmpDumping v as4 (encode u ++ extra) = some (specUpdate as4 u r w)
 
-theorem C04_bmp_full_repaired (v : Variant) (hp : v.maskPad = true) (he : v.eorDrops = false) :
-    C04_bmp_full v := by
+theorem C04_bmp_full_repaired (v : Variant) (hp : v.maskPad = true) (he : v.eorDrops = false)
+    (ho : v.overlapKept = false) : C04_bmp_full v := by
   intro as4 u r w extra hwf hr hw
-  exact runBmpDumping_encode v as4 u r w extra hwf hr hw (Or.inl hp) (Or.inl he)
+  exact runBmpDumping_encode v as4 u r w extra hwf hr hw (Or.inl hp) (Or.inl he) (Or.inl ho)
 
 /-- Code as written: fine unless routecore's `is_eor()` is true for an UPDATE that does
-    carry routes (guard: clean pad bits, and `isEorRc u = false` or no route at all). -/
+    carry routes, or an NLRI is both withdrawn and announced (guard: clean pad bits,
+    `isEorRc u = false` or no route at all, `noOverlap`). -/
 theorem C04_bmp_partial (as4 : Bool) (u : Upd) (r w : List (Fam × Pfx)) (extra : Bytes)
     (hwf : u.wfRfc) (hr : ReachIs u.attrs r) (hw : UnreachIs u.attrs w)
     (hclean : u.clean ∧ allClean r ∧ allClean w)
-    (he : isEorRc u = false ∨ specEvents as4 u r w = []) :
-    runBmpDumping asWritten as4 (encode u ++ extra) = some (specEvents as4 u r w) :=
-  runBmpDumping_encode asWritten as4 u r w extra hwf hr hw (Or.inr hclean) (Or.inr he)
+    (he : isEorRc u = false ∨ specEvents as4 u r w = []) (hno : noOverlap as4 u r w) :
+    runBmpDumping asWritten as4 (encode u ++ extra) = some (specUpdate as4 u r w) :=
+  runBmpDumping_encode asWritten as4 u r w extra hwf hr hw (Or.inr hclean) (Or.inr he) (Or.inr hno)
 
 /-- ORIGIN, AS_PATH, NEXT_HOP, an *empty* MP_UNREACH for IPv4 unicast, NLRI 203.0.113.0/24. -/
 def witnessBmp : Upd :=
   ⟨[], [⟨0x40, 1, [0]⟩, ⟨0x40, 2, []⟩, ⟨0x40, 3, [10, 0, 0, 1]⟩, ⟨0x80, 15, [0, 1, 1]⟩],
    [⟨24, [203, 0, 113]⟩]⟩
 
-/-- The Dumping-phase End-of-RIB shortcut violates C04 (independently of the pad-bit site:
-    the variant here has pad bits repaired): the witness announces 203.0.113.0/24 and
+/-- The Dumping-phase End-of-RIB shortcut violates C04 (independently of the other sites:
+    the variant here has them repaired): the witness announces 203.0.113.0/24 and
     yields no route. Replayed on the real state machine by the engine. -/
-theorem C04_bmp_counterexample : ¬ C04_bmp_full ⟨true, true, false⟩ := by
+theorem C04_bmp_counterexample : ¬ C04_bmp_full ⟨true, true, false, false⟩ := by
   intro h
   have h' := h true witnessBmp [] [] []
     ⟨by decide, by decide, by decide, by decide, by decide, by decide, by decide⟩
@@ -186,6 +264,13 @@ theorem C04_bmp_counterexample : ¬ C04_bmp_full ⟨true, true, false⟩ := by
 
 example : isEorRc witnessBmp = true ∧ witnessBmp.clean := by decide
 
+/-- ... and so do separate `explode_*` calls in `extract_route_monitoring_routes` (this site alone). -/
+theorem C04_bmp_overlap_counterexample : ¬ C04_bmp_full ⟨true, false, false, true⟩ := by
+  intro h
+  have h' := h true witnessOverlap [] [] [] witnessOverlap_wf (.absent (by decide)) (.absent (by decide))
+  revert h'
+  decide
+
 /-! ## The MRT update-file path -/
 
 /-- C04 for an UPDATE read from a BGP4MP_MESSAGE (`as4 = false`) or BGP4MP_MESSAGE_AS4
@@ -193,36 +278,43 @@ example : isEorRc witnessBmp = true ∧ witnessBmp.clean := by decide
 def C04_mrt_full (v : Variant) : Prop :=
   ∀ (as4 : Bool) (u : Upd) (r w : List (Fam × Pfx)) (extra : Bytes),
     u.wfRfc → ReachIs u.attrs r → UnreachIs u.attrs w →
-    runMrt v as4 (encode u ++ extra) = some (specEvents as4 u r w)
+    runMrt v as4 (encode u ++ extra) = some (specUpdate as4 u r w)
 
-theorem C04_mrt_full_repaired (v : Variant) (hp : v.maskPad = true) (hm : v.mrtForcesAs4 = false) :
-    C04_mrt_full v := by
+theorem C04_mrt_full_repaired (v : Variant) (hp : v.maskPad = true) (hm : v.mrtForcesAs4 = false)
+    (ho : v.overlapKept = false) : C04_mrt_full v := by
   intro as4 u r w extra hwf hr hw
   unfold runMrt
   rw [hm, Bool.false_or]
-  exact run_encode v as4 u r w extra hwf hr hw (Or.inl hp)
+  exact runCaller_encode v as4 u r w extra hwf hr hw (Or.inl hp) (Or.inl ho)
 
-/-- Code as written: right for AS4 records (and clean pad bits). -/
+/-- Code as written: right for AS4 records (clean pad bits, no NLRI both withdrawn and announced). -/
 theorem C04_mrt_partial (u : Upd) (r w : List (Fam × Pfx)) (extra : Bytes)
     (hwf : u.wfRfc) (hr : ReachIs u.attrs r) (hw : UnreachIs u.attrs w)
-    (hclean : u.clean ∧ allClean r ∧ allClean w) :
-    runMrt asWritten true (encode u ++ extra) = some (specEvents true u r w) := by
+    (hclean : u.clean ∧ allClean r ∧ allClean w) (hno : noOverlap true u r w) :
+    runMrt asWritten true (encode u ++ extra) = some (specUpdate true u r w) := by
   unfold runMrt
   rw [Bool.or_true]
-  exact run_encode asWritten true u r w extra hwf hr hw (Or.inr hclean)
+  exact runCaller_encode asWritten true u r w extra hwf hr hw (Or.inr hclean) (Or.inr hno)
 
 /-- AS_PATH (64500 64501) in 2-octet encoding, NLRI 203.0.113.0/24. -/
 def witnessMrt : Upd :=
   ⟨[], [⟨0x40, 1, [0]⟩, ⟨0x40, 2, [2, 2, 0xfb, 0xf4, 0xfb, 0xf5]⟩, ⟨0x40, 3, [10, 0, 0, 1]⟩],
    [⟨24, [203, 0, 113]⟩]⟩
 
-/-- A 2-octet-AS record comes out tagged 4-octet-AS (pad-bit and EoR sites repaired in
+/-- A 2-octet-AS record comes out tagged 4-octet-AS (the other sites repaired in
     this variant, so it is this site alone). -/
-theorem C04_mrt_counterexample : ¬ C04_mrt_full ⟨true, false, true⟩ := by
+theorem C04_mrt_counterexample : ¬ C04_mrt_full ⟨true, false, true, false⟩ := by
   intro h
   have h' := h false witnessMrt [] [] []
     ⟨by decide, by decide, by decide, by decide, by decide, by decide, by decide⟩
     (.absent (by decide)) (.absent (by decide))
+  revert h'
+  decide
+
+/-- Separate `explode_*` calls in mrt-in's `process_message` (this site alone). -/
+theorem C04_mrt_overlap_counterexample : ¬ C04_mrt_full ⟨true, false, false, true⟩ := by
+  intro h
+  have h' := h true witnessOverlap [] [] [] witnessOverlap_wf (.absent (by decide)) (.absent (by decide))
   revert h'
   decide
 
@@ -294,6 +386,64 @@ theorem C04_eor (v : Variant) (as4 : Bool) (u : Upd) (extra : Bytes) (hwf : u.wf
       simp only [events, announcements, withdrawals, h14, h15, hval, parseMpUnreach, List.map_nil]
       cases famOf (x * 256 + y) z <;> simp [decPfxs, decPfxsF]
   | _ :: _ :: _, h => simp at h
+
+/-! ## What `specUpdate` adds (RFC 4271 4.3), clause by clause -/
+
+/-- An overlapped prefix yields exactly its announcement: no payload of a call site withdraws
+    an NLRI (family, prefix) that a payload of the same UPDATE announces. -/
+theorem C04_overlap_yields_only_announcement (as4 : Bool) (u : Upd) (r w : List (Fam × Pfx)) :
+    ∀ a ∈ specUpdate as4 u r w, a.kind = .announce →
+      ∀ e ∈ specUpdate as4 u r w, e.kind = .withdraw → ¬ (a.fam = e.fam ∧ a.pfx = e.pfx) := by
+  intro a ha hak e he hek
+  rw [mem_specUpdate] at ha he
+  have ha' : a ∈ specAnn as4 u r := by
+    rcases ha with ha | ha
+    · exact ha
+    · have := specWdr_kind as4 u w a ha.1; rw [hak] at this; cases this
+  rcases he with he | he
+  · have := specAnn_kind as4 u r e he; rw [hek] at this; cases this
+  · exact he.2 a ha'
+
+/-- ... every announcement of the UPDATE is still there, once, in wire order ... -/
+theorem C04_update_keeps_announcements (as4 : Bool) (u : Upd) (r w : List (Fam × Pfx)) :
+    (specUpdate as4 u r w).filter (fun e => decide (e.kind = .announce)) =
+      (specEvents as4 u r w).filter (fun e => decide (e.kind = .announce)) := by
+  have h1 : (specAnn as4 u r).filter (fun e => decide (e.kind = .announce)) = specAnn as4 u r := by
+    rw [List.filter_eq_self]; intro e he; simp [specAnn_kind as4 u r e he]
+  have h2 : ∀ l : List Event, (∀ e ∈ l, e.kind = .withdraw) →
+      l.filter (fun e => decide (e.kind = .announce)) = [] := by
+    intro l hl; rw [List.filter_eq_nil_iff]; intro e he; simp [hl e he]
+  rw [specEvents_eq]
+  unfold specUpdate
+  rw [List.filter_append, List.filter_append, h1, h2 _ (specWdr_kind as4 u w),
+    h2 _ (fun e he => specWdr_kind as4 u w e (List.mem_filter.mp he).1)]
+
+/-- ... every withdrawal of an NLRI the UPDATE does not announce is still there ... -/
+theorem C04_update_keeps_other_withdrawals (as4 : Bool) (u : Upd) (r w : List (Fam × Pfx)) :
+    ∀ e ∈ specEvents as4 u r w, e.kind = .withdraw →
+      (∀ a ∈ specEvents as4 u r w, a.kind = .announce → ¬ (a.fam = e.fam ∧ a.pfx = e.pfx)) →
+      e ∈ specUpdate as4 u r w := by
+  intro e he hek hno
+  rw [specEvents_eq, List.mem_append] at he
+  rw [mem_specUpdate]
+  rcases he with he | he
+  · exact Or.inl he
+  · refine Or.inr ⟨he, fun a ha => hno a ?_ (specAnn_kind as4 u r a ha)⟩
+    rw [specEvents_eq]; exact List.mem_append_left _ ha
+
+/-- ... nothing is invented or reordered (`specUpdate` is `specEvents` with elements removed) ... -/
+theorem C04_update_sublist (as4 : Bool) (u : Upd) (r w : List (Fam × Pfx)) :
+    (specUpdate as4 u r w).Sublist (specEvents as4 u r w) := by
+  rw [specEvents_eq]
+  exact List.Sublist.append (List.Sublist.refl _) List.filter_sublist
+
+/-- ... and an UPDATE without overlap is not touched at all. -/
+theorem C04_update_eq_of_no_overlap (as4 : Bool) (u : Upd) (r w : List (Fam × Pfx))
+    (h : noOverlap as4 u r w) : specUpdate as4 u r w = specEvents as4 u r w :=
+  specUpdate_of_noOverlap as4 u r w h
+
+example : specUpdate true witnessOverlap [] [] = [ann true witnessOverlap.attrs .v4u ⟨24, [203, 0, 113]⟩] ∧
+    (specEvents true witnessOverlap [] []).length = 2 := by decide
 
 example : isEoR ⟨[], [], []⟩ = true ∧ isEoR ⟨[], [⟨0x80, 15, [0, 2, 1]⟩], []⟩ = true := by decide
 
